@@ -78,6 +78,20 @@ CHECKS = {
         technique="Lean 4 proof over generated model + exact/float metamorphic search",
         design="6/C17",
     ),
+    "C19": dict(
+        text=("28 theorems over the check_scalar / auto_check definitions and the (entry point, parameter) -> check "
+              "table regenerated from the source: auto_check accepts a value iff it lies in the documented domain, "
+              "for every option name and every Python value (NaN, +-inf, bool-as-int, strings, sequences, empty "
+              "sequences); effect sizes finite non-zero; q in [0,1]; one bad element rejects a sequence; NaN in no "
+              "domain; and (decide +kernel) every documented parameter of every entry point carries its check and "
+              "its configuration fallback. Tie: translator + EXHAUSTIVE grid of 58 (entry, parameter) x 63 probes "
+              "against the real constructors; search: real outcome vs documented domain."),
+        note=NOTE_COMMON + "Hand-written model of Python comparison/isinstance semantics (PyVal) and the mirrored "
+             "dispatch around the checks (None -> config, Sequence -> element-wise) are validated by the grid. "
+             "Checks with non-literal bounds (make_*_data uplifts, Callable, Generator) are opaque in the table.",
+        technique="Lean 4 proof over generated model + exhaustive correspondence grid",
+        design="6/C19",
+    ),
 }
 
 PENDING_REASON = "check not implemented yet in this round (see DESIGN.md section 6 for the planned model and theorems)"
